@@ -131,6 +131,14 @@ type vFaultFSC55 struct {
 	byPath map[string]*vFaultC55
 	fired  map[string]bool
 	logf   string
+	cwd    string // set when restic is given relative targets: names are resolved against it
+}
+
+func (v *vFaultFSC55) lookup(name string) *vFaultC55 {
+	if v.cwd != "" && !filepath.IsAbs(name) {
+		name = filepath.Join(v.cwd, name)
+	}
+	return v.byPath[filepath.Clean(name)]
 }
 
 func vNewFaultFSC55(inner fs.FS, plan *vPlanC55) *vFaultFSC55 {
@@ -174,7 +182,7 @@ func vPathErrC55(op, name string, errno syscall.Errno) error {
 }
 
 func (v *vFaultFSC55) OpenFile(name string, flag int, metadataOnly bool) (fs.File, error) {
-	f := v.byPath[filepath.Clean(name)]
+	f := v.lookup(name)
 	if f == nil {
 		return v.FS.OpenFile(name, flag, metadataOnly)
 	}
@@ -208,7 +216,7 @@ func (v *vFaultFSC55) OpenFile(name string, flag int, metadataOnly bool) (fs.Fil
 }
 
 func (v *vFaultFSC55) Lstat(name string) (*fs.ExtendedFileInfo, error) {
-	if f := v.byPath[filepath.Clean(name)]; f != nil && f.Kind == kStatEACCES {
+	if f := v.lookup(name); f != nil && f.Kind == kStatEACCES {
 		return nil, vPathErrC55("lstat", name, syscall.EACCES)
 	}
 	return v.FS.Lstat(name)
@@ -357,6 +365,9 @@ type vCaseC55 struct {
 	NoScan   bool        `json:"no_scan,omitempty"`
 	JSON     bool        `json:"json,omitempty"`
 	Exec     string      `json:"exec"`
+	// Again: the faulty backup is repeated with an option that makes restic write no snapshot
+	// ("skip-if-unchanged" with the snapshot just written as parent, "dry-run"); in-process only
+	Again string `json:"again,omitempty"`
 }
 
 var vKindsFileC55 = []string{kOpenEACCES, kStatEACCES, kReadEACCES, kReadMid, kFile2Dir, kFile2Link, kVanish, kVanishOpen, kVanishLate, kReadMid, kReadMid, kReadEACCES}
@@ -578,6 +589,9 @@ func vGenCaseC55(t *rapid.T, exec string) (vTree, *vCaseC55) {
 	}
 	c.NoScan = rapid.IntRange(0, 3).Draw(t, "noscan") == 0
 	c.JSON = rapid.IntRange(0, 3).Draw(t, "json") == 0
+	if exec == "inproc" {
+		c.Again = rapid.SampledFrom([]string{"", "skip-if-unchanged", "skip-if-unchanged", "dry-run"}).Draw(t, "again")
+	}
 	c.Tree = tr.String()
 	return tr, c
 }
@@ -842,6 +856,73 @@ func vCheckCaseC55(t *rapid.T, st *verifkit.Stats, tr vTree, c *vCaseC55) {
 	}
 	if d != "" {
 		t.Fatalf("snapshot %s differs from the readable part of the source: %s\n%s", id[:8], d, desc())
+	}
+
+	// 4. once more with the same faults and an option under which restic writes no snapshot: the
+	//    exit status speaks about the source items ("if any source item cannot be read ... exits
+	//    with status 3"), whether or not a snapshot file results
+	stateless := true // type changes and vanishing items are carried out on the real file system: the second run sees another source
+	for _, f := range c.Faults {
+		switch f.Kind {
+		case kOpenEACCES, kStatEACCES, kReaddirEACC, kReaddirPart, kReadEACCES, kReadMid:
+		default:
+			stateless = false
+		}
+	}
+	if !child && c.Again != "" && !x.eitherOK && stateless {
+		// relative targets from the parent of the source directory: the root tree then holds the
+		// source directory only (with absolute targets it also holds the scratch directories above,
+		// whose timestamps move, and no two snapshots would ever have the same tree)
+		base := filepath.Dir(src)
+		oldwd, err := os.Getwd()
+		if err != nil {
+			t.Fatal(err)
+		}
+		if err := os.Chdir(base); err != nil {
+			t.Fatal(err)
+		}
+		defer func() { _ = os.Chdir(oldwd) }()
+		var rel []string
+		for _, tg := range targets {
+			r, err := filepath.Rel(base, tg)
+			if err != nil {
+				t.Fatal(err)
+			}
+			rel = append(rel, r)
+		}
+		want := 0
+		if x.status3 {
+			want = 3
+		}
+		for pass, bo := range []BackupOptions{
+			{NoScan: c.NoScan},
+			{NoScan: c.NoScan, SkipIfUnchanged: c.Again == "skip-if-unchanged", DryRun: c.Again == "dry-run"},
+		} {
+			n1, err := e.SnapshotIDs()
+			if err != nil {
+				t.Fatal(err)
+			}
+			ffs := vNewFaultFSC55(nil, plan)
+			ffs.cwd = base
+			backupFSTestHook = func(inner fs.FS) fs.FS { ffs.FS = inner; return ffs }
+			g := e.gopts
+			g.JSON = c.JSON
+			out, berr := e.BackupOut(context.Background(), g, rel, bo)
+			backupFSTestHook = nil
+			code2 := vExitCodeC55(berr)
+			n2, err := e.SnapshotIDs()
+			if err != nil {
+				t.Fatal(err)
+			}
+			st.Evals(1)
+			if pass == 1 {
+				st.Class(fmt.Sprintf("again=%s,status=%d,new-snapshot=%v", c.Again, code2, len(n2) > len(n1)))
+			}
+			if code2 != want {
+				t.Fatalf("repeated with relative targets %q (pass %d, skip-if-unchanged=%v dry-run=%v): exit status %d, want %d (first run: %d; a snapshot was written: %v)\nrunBackup returned: %v\n%s%s\n%s",
+					rel, pass, bo.SkipIfUnchanged, bo.DryRun, code2, want, code, len(n2) > len(n1), berr, out.Stdout, out.Stderr, desc())
+			}
+		}
 	}
 }
 
